@@ -59,13 +59,18 @@ type Case struct {
 	Nonce    []byte `json:"nonce,omitempty"`     // else this (GCM: 12 octets; CBC: ignored by the package)
 
 	// reference-side presentation variants
-	RefEmbedCert  bool   `json:"ref_embed_cert,omitempty"`
-	RefWrap       int    `json:"ref_wrap,omitempty"`        // base64 line length (0 = one line)
-	RefSibling    bool   `json:"ref_sibling,omitempty"`     // ref2sp: EncryptedKey next to EncryptedData
-	RefPrefix     string `json:"ref_prefix,omitempty"`      // "" (xenc:/ds:) | default (xmlenc as default namespace, dsig:) | other (e:/sig:)
-	RefExtras     bool   `json:"ref_extras,omitempty"`      // optional schema parts without key material: KeySize, Recipient, KeyName, CarriedKeyName, EncryptionProperties, MimeType
-	RefIndent     bool   `json:"ref_indent,omitempty"`      // pretty-printed document (white space between elements)
-	RefKeyRef     bool   `json:"ref_key_ref,omitempty"`     // ref2sp sibling layout: EncryptedData/KeyInfo/RetrievalMethod URI="#<Id of the EncryptedKey>"
+	RefEmbedCert bool   `json:"ref_embed_cert,omitempty"`
+	RefWrap      int    `json:"ref_wrap,omitempty"`    // base64 line length (0 = one line)
+	RefSibling   bool   `json:"ref_sibling,omitempty"` // ref2sp: EncryptedKey next to EncryptedData
+	RefPrefix    string `json:"ref_prefix,omitempty"`  // "" (xenc:/ds:) | default (xmlenc as default namespace, dsig:) | other (e:/sig:) | dsdefault (xenc:, xmldsig as default namespace) | bothdefault
+	RefExtras    bool   `json:"ref_extras,omitempty"`  // optional schema parts without key material: KeySize, Recipient, KeyName, CarriedKeyName, EncryptionProperties, MimeType
+	RefIndent    bool   `json:"ref_indent,omitempty"`  // pretty-printed document (white space between elements)
+	RefKeyRef    bool   `json:"ref_key_ref,omitempty"` // ref2sp sibling layout: EncryptedData/KeyInfo/RetrievalMethod URI="#<Id of the EncryptedKey>"
+	// optional children of the reference EncryptedKey's EncryptionMethod, varied independently of each other:
+	// RefMGF (xmlenc11 rsa-oaep): "" = named after the digest unless RefDefaultMGF | omit (element absent = mgf1sha1) | sha1 | sha224 | sha256 | sha384 | sha512 (explicit element)
+	// RefOAEPParams: "" = element absent | empty (<OAEPparams/>, the same null label) | label (a non-empty label: don't-care, the property is silent)
+	RefMGF        string `json:"ref_mgf,omitempty"`
+	RefOAEPParams string `json:"ref_oaep_params,omitempty"`
 	RefDefaultMGF bool   `json:"ref_default_mgf,omitempty"` // xmlenc11 rsa-oaep: no xenc11:MGF element, mask function = the W3C default MGF1-SHA-1
 	RefStdURI     bool   `json:"ref_std_uri,omitempty"`     // spell SHA-256/512/RIPEMD-160 with the W3C xmlenc# identifiers (don't-care: not in the package's registry)
 	Marker        string `json:"marker,omitempty"`          // idp2ref / ref2sp: the NameID that must come out
@@ -424,6 +429,10 @@ func (c Case) refOptions() refenc.Options {
 		o.XencPrefix, o.DsPrefix = "-", "dsig"
 	case "other":
 		o.XencPrefix, o.DsPrefix = "e", "sig"
+	case "dsdefault": // xenc: prefix, xmldsig as default namespace on KeyInfo / DigestMethod (ADFS style)
+		o.DsPrefix = "-"
+	case "bothdefault":
+		o.XencPrefix, o.DsPrefix = "-", "-"
 	}
 	switch c.Transport {
 	case "oaep-mgf1p":
@@ -438,10 +447,38 @@ func (c Case) refOptions() refenc.Options {
 		if c.RefDefaultMGF {
 			o.MGF = "" // element omitted: MGF1 with SHA-1 (xmlenc-core 1.1 section 5.5.2)
 		}
+		switch c.RefMGF {
+		case "omit":
+			o.MGF = ""
+		case "sha1":
+			o.MGF = refenc.MGF1SHA1
+		case "sha224":
+			o.MGF = refenc.MGF1SHA224
+		case "sha256":
+			o.MGF = refenc.MGF1SHA256
+		case "sha384":
+			o.MGF = refenc.MGF1SHA384
+		case "sha512":
+			o.MGF = refenc.MGF1SHA512
+		}
 	case "pkcs1":
 		o.KeyTransport = refenc.RSA15
 	}
+	if o.KeyTransport == refenc.RSAOAEPMGF1P || o.KeyTransport == refenc.RSAOAEP11 {
+		switch c.RefOAEPParams {
+		case "empty":
+			o.OAEPParams = []byte{}
+		case "label":
+			o.OAEPParams = []byte("c10 label")
+		}
+	}
 	return o
+}
+
+// labelled: the reference used a non-empty OAEP label (OAEPparams); the property does
+// not speak about it, so such a case is exercised but not judged.
+func (c Case) labelled() bool {
+	return c.RefOAEPParams == "label" && (c.Transport == "oaep-mgf1p" || c.Transport == "oaep11")
 }
 
 func (c Case) refDecrypt(el *etree.Element) ([]byte, error) {
@@ -535,8 +572,22 @@ func classes(c Case) []string {
 		if c.RefStdURI {
 			cl = append(cl, "ref:w3c-digest-uri(dont-care)")
 		}
-		if c.RefDefaultMGF && c.Transport == "oaep11" {
-			cl = append(cl, "ref:default-mgf")
+		if c.Transport == "oaep11" {
+			switch {
+			case c.RefMGF == "omit" || (c.RefMGF == "" && c.RefDefaultMGF):
+				cl = append(cl, "ref:default-mgf")
+			case c.RefMGF != "":
+				cl = append(cl, "ref:explicit-mgf-"+c.RefMGF)
+				if c.Digest == "absent" {
+					cl = append(cl, "ref:mgf-without-digestmethod")
+				}
+			}
+		}
+		switch {
+		case c.labelled():
+			cl = append(cl, "ref:oaep-label(dont-care)")
+		case c.RefOAEPParams == "empty" && (c.Transport == "oaep-mgf1p" || c.Transport == "oaep11"):
+			cl = append(cl, "ref:empty-oaepparams")
 		}
 		if c.Digest == "absent" {
 			cl = append(cl, "ref:no-digestmethod")
@@ -579,7 +630,19 @@ func wellFormed(c Case) bool {
 	if c.PlainLen < 0 || c.PlainLen > 1<<20 || len(c.Nonce) > 4096 {
 		return false
 	}
-	if c.RefPrefix != "" && c.RefPrefix != "default" && c.RefPrefix != "other" {
+	switch c.RefPrefix {
+	case "", "default", "other", "dsdefault", "bothdefault":
+	default:
+		return false
+	}
+	switch c.RefMGF {
+	case "", "omit", "sha1", "sha224", "sha256", "sha384", "sha512":
+	default:
+		return false
+	}
+	switch c.RefOAEPParams {
+	case "", "empty", "label":
+	default:
 		return false
 	}
 	if c.Transport == "direct" || c.Dir == "ref2pkg" || c.Dir == "ref2sp" {
@@ -687,7 +750,7 @@ func check(c Case) pbt.Result {
 		out, err := c.pkgDecrypt(el)
 		// An omitted ds:DigestMethod means SHA-1 (xmlenc-core 1.1 section 5.5.2; the package's own
 		// RSA.Decrypt says so too): the reference used SHA-1, so the package must open it.
-		dontCare := c.RefStdURI && c.Transport != "pkcs1" && c.Transport != "direct" && c.Digest != "sha1" && c.Digest != "absent"
+		dontCare := c.labelled() || c.RefStdURI && c.Transport != "pkcs1" && c.Transport != "direct" && c.Digest != "sha1" && c.Digest != "absent"
 		if dontCare {
 			if err != nil && strings.HasPrefix(err.Error(), "PANIC") {
 				return fail(c, "package Decrypt of a reference ciphertext: %v", err)
@@ -901,7 +964,7 @@ func checkSP(c Case, ok pbt.Result) pbt.Result {
 		}
 		return err
 	})
-	dontCare := c.RefStdURI && c.Transport != "pkcs1" && c.Digest != "sha1" && c.Digest != "absent"
+	dontCare := c.labelled() || c.RefStdURI && c.Transport != "pkcs1" && c.Digest != "sha1" && c.Digest != "absent"
 	if dontCare {
 		if err != nil && strings.HasPrefix(err.Error(), "PANIC") {
 			return fail(c, "ParseXMLResponse: %v", err)
@@ -1029,7 +1092,14 @@ func gen(t *rapid.T) Case {
 		if c.Transport != "direct" {
 			c.RefEmbedCert = rapid.Bool().Draw(t, "embed-cert")
 			if c.Transport == "oaep11" {
-				c.RefDefaultMGF = rapid.Bool().Draw(t, "default-mgf")
+				// independent of the digest and of whether ds:DigestMethod is written
+				c.RefMGF = rapid.SampledFrom([]string{"", "omit", "omit", "sha1", "sha224", "sha256", "sha256", "sha384", "sha512"}).Draw(t, "mgf")
+				if c.RefMGF == "" {
+					c.RefDefaultMGF = rapid.Bool().Draw(t, "default-mgf")
+				}
+			}
+			if c.Transport != "pkcs1" {
+				c.RefOAEPParams = rapid.SampledFrom([]string{"", "", "", "empty", "empty", "label"}).Draw(t, "oaep-params")
 			}
 			if c.Transport != "pkcs1" && c.Digest != "sha1" && c.Digest != "absent" {
 				c.RefStdURI = rapid.IntRange(0, 7).Draw(t, "std-uri") == 0
@@ -1038,7 +1108,7 @@ func gen(t *rapid.T) Case {
 		if rapid.IntRange(0, 3).Draw(t, "wrap") == 0 {
 			c.RefWrap = rapid.SampledFrom([]int{64, 76, 4}).Draw(t, "wrap-len")
 		}
-		c.RefPrefix = rapid.SampledFrom([]string{"", "", "default", "other"}).Draw(t, "prefix")
+		c.RefPrefix = rapid.SampledFrom([]string{"", "", "default", "other", "dsdefault", "bothdefault"}).Draw(t, "prefix")
 		c.RefExtras = rapid.IntRange(0, 2).Draw(t, "extras") == 0
 		c.RefIndent = rapid.IntRange(0, 2).Draw(t, "indent") == 0
 		if c.Dir == "ref2sp" {
@@ -1105,7 +1175,13 @@ func enumLengths(block string, rsaKeys []string) func(string, func(Case)) {
 							c.Filler = expand(seed, "filler", bs-1)
 							c.RefEmbedCert = cb.transport != "direct" && n%2 == 0
 							c.RefDefaultMGF = cb.transport == "oaep11" && n%4 >= 2
-							c.RefPrefix = []string{"", "default", "other"}[n%3]
+							if cb.transport == "oaep11" {
+								c.RefMGF = []string{"", "omit", "sha1", "sha224", "sha256", "sha384", "sha512"}[n%7]
+							}
+							if (cb.transport == "oaep11" || cb.transport == "oaep-mgf1p") && n%6 == 3 {
+								c.RefOAEPParams = "empty"
+							}
+							c.RefPrefix = []string{"", "default", "other", "dsdefault", "bothdefault"}[n%5]
 							c.RefExtras = n%5 == 1
 							c.RefIndent = n%7 == 2
 						} else {
@@ -1160,7 +1236,7 @@ var prop = &pbt.Prop[Case]{
 		"the reference links its own non-registering copy of RIPEMD-160 (internal/refenc/rmd160): nothing in the harness makes crypto.RIPEMD160 available on the library's behalf",
 		"rsa-oaep-mgf1p uses MGF1-SHA-1 whatever the DigestMethod (xmlenc-core §5.4.2); xmlenc11 rsa-oaep: the reference names the mask function the package's constructor uses in an explicit xenc11:MGF element when it encrypts, and follows the W3C default (mgf1sha1) for a ciphertext without one",
 		"a supplied GCM nonce has 12 octets; for CBC the nonce argument is documented as unused and may be anything",
-		"OAEPparams (a non-empty OAEP label) is outside the property and not generated",
+		"the optional children of the reference EncryptedKey's EncryptionMethod are varied independently and judged by the XML-Encryption defaults: ds:DigestMethod omitted = SHA-1, xenc11:MGF omitted = mgf1sha1, explicit xenc11:MGF mgf1sha1/224/256/384/512 with or without a DigestMethod, an empty OAEPparams = the null label; a NON-empty OAEP label is exercised but not judged (the property is silent)",
 		"IdP->ref and ref->SP use the library IdP only to obtain a signed assertion for a fixed benign session; clock pinned at fix.Epoch",
 	},
 }
